@@ -16,6 +16,22 @@ def notFirstCall : Expr → Bool
   | .call (.name "First") _ _ _ => false
   | _ => true
 
+theorem firstArg?_none_of_notFirstCall {v : Expr} (hf : notFirstCall v = true) : firstArg? v = Option.none := by
+  unfold notFirstCall at hf
+  split at hf
+  · cases hf
+  · rename_i hnf
+    cases v with
+    | call f args k1 k2 =>
+      cases f with
+      | name n =>
+        simp only [firstArg?]
+        split
+        · rename_i hn; subst hn; exact absurd rfl (hnf _ _ _)
+        · rfl
+      | _ => rfl
+    | _ => rfl
+
 /-- **C18 (non-constant / slice / bool / float / None selector)**: once the two children are simplified,
     a subscript whose selector is not an integer or string constant is returned as that same subscript
     around the simplified children — the literal is not taken apart, nothing is raised. -/
@@ -24,19 +40,13 @@ theorem simp_sub_nonconst (fuel : Nat) (st : SStack) (c c1 c2 : Nat) (v s v' s' 
     (hsel : notConstSel s' = true) (hf : notFirstCall v' = true) :
     simp (fuel + 1) st c (.sub v s) = .ok (.sub v' s', c2) := by
   simp only [simp, hv, hs, bind, Except.bind]
-  have hgen : (match v' with
-      | .call (.name "First") (first :: _) _ _ =>
+  have hfa : firstArg? v' = Option.none := firstArg?_none_of_notFirstCall hf
+  have hgen : (match firstArg? v' with
+      | some (some first) =>
         simp fuel st (c2 + 1) (fcall "First" [makeSelect first (.lam [argName c2] (.sub (.name (argName c2)) s'))])
-      | .call (.name "First") [] _ _ => Except.error (Err.internal "IndexError")
-      | _ => Except.ok (.sub v' s', c2)) = Except.ok (.sub v' s', c2) := by
-    unfold notFirstCall at hf
-    split at hf
-    · cases hf
-    · rename_i hnf
-      split
-      · exact absurd rfl (hnf _ _ _)
-      · exact absurd rfl (hnf _ _ _)
-      · rfl
+      | some Option.none => Except.error (Err.internal "IndexError")
+      | Option.none => Except.ok (.sub v' s', c2)) = Except.ok (.sub v' s', c2) := by
+    rw [hfa]
   unfold notConstSel at hsel
   split at hsel
   · cases hsel
@@ -53,7 +63,7 @@ theorem simp_sub_negative (fuel : Nat) (st : SStack) (c c1 c2 : Nat) (v s : Expr
     (hv : simp fuel st c v = .ok (.tuple es, c1)) (hs : simp fuel st c1 s = .ok (.const (.int n), c2)) (hn : n < 0) :
     simp (fuel + 1) st c (.sub v s) = .ok (.sub (.tuple es) (.const (.int n)), c2) := by
   have : ¬ n ≥ 0 := by omega
-  simp [simp, hv, hs, bind, Except.bind, this]
+  simp [simp, hv, hs, bind, Except.bind, this, firstArg?]
 
 /-- **C18 (the only permitted failure)**: a constant non-negative index into a tuple literal either
     returns that element or raises the dedicated index error, and it raises it exactly when the index
